@@ -952,7 +952,7 @@ def run(check: core.Check) -> None:
     check.add_tlc("emit1", em)
     singles = core.emitted_json(em)
     check.cov["single_statement_functions_enumerated"] = len(singles)
-    n1 = 2000 if quick else 31000
+    n1 = 1600 if quick else 31000
     if len(singles) > n1:
         singles = rnd.sample(singles, n1)
     # the narrowing slice: every test in if / if-else / early return, every pattern (with and without guard) followed by
@@ -961,18 +961,18 @@ def run(check: core.Check) -> None:
     check.add_tlc("narrow", nr)
     narrow = core.emitted_json(nr)
     check.cov["narrowing_slice_functions_enumerated"] = len(narrow)
-    n2 = 2200 if quick else 30000
+    n2 = 1800 if quick else 30000
     if len(narrow) > n2:
         narrow = rnd.sample(narrow, n2)
     # the indexing slice (always run in full): a literal index / slice at every position of x and of sequences with an
     # unpacked part, x every parameter type x every argument the type admits (empty and one-element containers included)
     ix = core.require_ok(core.run_tlc("MiniPyEmit", "MiniPy.index.cfg", timeout=1800), "MiniPy indexing slice")
     check.add_tlc("index", ix)
-    index = [{**c, "maxargs": 14} for c in core.emitted_json(ix)]
+    index = [{**c, "maxargs": 10} for c in core.emitted_json(ix)]
     check.cov["indexing_slice_functions"] = len(index)
     singles_y = core.simulate_cases("MiniPyEmit", "MiniPy.sim1y.cfg", 1000 if quick else 12000, depth=12, seed=check.seed + 3,
                                     check=check, first_num=400 if quick else 4000)
-    sim = core.simulate_cases("MiniPyEmit", "MiniPy.sim.cfg", 2500 if quick else 40000, depth=45, seed=check.seed + 6,
+    sim = core.simulate_cases("MiniPyEmit", "MiniPy.sim.cfg", 2200 if quick else 40000, depth=45, seed=check.seed + 6,
                               check=check, first_num=1200 if quick else 12000)
     check.cov["exhaustive"] = False
     check.cov["rule"] = (
